@@ -299,16 +299,13 @@ class Rule_CV12(BaseRule):
 
     @staticmethod
     def _get_from_expression_element_alias(from_expr_element: BaseSegment) -> str:
-        if "alias_expression" in from_expr_element.direct_descendant_type_set:
-            alias_seg = from_expr_element.get_child("alias_expression")
-            assert alias_seg is not None
-            identifier_seg = alias_seg.get_child("identifier")
-            assert identifier_seg is not None
-            alias_str = identifier_seg.raw_upper
-        else:
-            alias_str = from_expr_element.raw_upper
-
-        return alias_str
+        alias_seg = from_expr_element.get_child("alias_expression")
+        # NOTE: An alias expression doesn't always name the table, e.g. the
+        # column definition list in `json_to_record(x) AS (a int)`.
+        identifier_seg = alias_seg.get_child("identifier") if alias_seg else None
+        if identifier_seg:
+            return identifier_seg.raw_upper
+        return from_expr_element.raw_upper
 
     @staticmethod
     def _get_from_expression_element_function(from_expr_element: BaseSegment) -> str:
